@@ -4,6 +4,9 @@ import time
 
 
 def main(argv):
+    if argv and argv[0] != "replay":
+        from symx import instrument
+        instrument.install()      # every shexer.* module is compiled from its current source with `in` / `join` routed through the proxies
     if not argv:
         print("usage: run <Cxx> <quick|thorough> | run replay <file> | run selftest")
         return 2
